@@ -168,3 +168,97 @@ def f64_from_int_bv(ctx: FPContext, name: str, bits: int = 32):
   iv = z3.Int(name + '_int')
   ctx.constraints.append(iv == z3.BV2Int(bv, is_signed=True))
   return bv, iv, SymF64(ctx, z3.fpSignedToFP(RNE, bv, F64), z3.ToReal(iv), integral=True)
+
+
+# ---------------------------------------------------------------------------
+# decision-replay path exploration: real Python code branching on symbolic comparisons
+
+class PathExplorer:
+  """Re-executes `fn` once per feasible path.  Symbolic comparisons return `SymBool`; its __bool__ consults the solver
+  under the current path condition and follows a recorded decision prefix (depth-first)."""
+
+  def __init__(self, assumptions=(), max_paths=256, timeout_ms=5000):
+    self.assumptions = list(assumptions)
+    self.max_paths = max_paths
+    self.timeout_ms = timeout_ms
+    self.queries = 0
+
+  def _feasible(self, conds):
+    s = z3.Solver(); s.set('timeout', self.timeout_ms)
+    s.add(self.assumptions); s.add(conds)
+    self.queries += 1
+    return str(s.check())
+
+  def explore(self, fn):
+    """Returns [(path_condition list, outcome)] with outcome = ('return', value) or ('raise', exception)."""
+    results = []
+    stack = [[]]                       # decision prefixes still to run
+    while stack and len(results) < self.max_paths:
+      self.prefix = stack.pop(); self.decisions = []; self.pc = []; self.pending = []
+      BranchReal.explorer = self
+      try:
+        out = ('return', fn())
+      except Exception as e:  # noqa: BLE001  (the code under test may legitimately raise)
+        out = ('raise', e)
+      results.append((list(self.pc), out))
+      stack.extend(self.pending)
+    self.exhausted = not stack
+    return results
+
+  def decide(self, cond):
+    i = len(self.decisions)
+    if i < len(self.prefix):
+      choice = self.prefix[i]
+    else:
+      t = self._feasible(self.pc + [cond]); f = self._feasible(self.pc + [z3.Not(cond)])
+      if 'unknown' in (t, f):
+        raise RuntimeError('path feasibility undecided')
+      if t == 'sat' and f == 'sat':
+        choice = True
+        self.pending.append(self.decisions + [False])
+      elif t == 'sat':
+        choice = True
+      elif f == 'sat':
+        choice = False
+      else:
+        raise RuntimeError('infeasible path condition')
+    self.decisions.append(choice)
+    self.pc.append(cond if choice else z3.Not(cond))
+    return choice
+
+
+class SymBool:
+  def __init__(self, t): self.t = t
+  def __bool__(self): return BranchReal.explorer.decide(self.t)
+  def __and__(self, o): return SymBool(z3.And(self.t, o.t if isinstance(o, SymBool) else z3.BoolVal(bool(o))))
+  __rand__ = __and__
+  def __or__(self, o): return SymBool(z3.Or(self.t, o.t if isinstance(o, SymBool) else z3.BoolVal(bool(o))))
+  __ror__ = __or__
+  def __invert__(self): return SymBool(z3.Not(self.t))
+
+
+class BranchReal(SymReal):
+  """SymReal whose comparisons yield SymBool (branchable under a PathExplorer)."""
+  explorer = None
+
+  def _w(self, r): return BranchReal(r.t)
+  def __add__(self, o): return self._w(SymReal.__add__(self, o))
+  __radd__ = __add__
+  def __sub__(self, o): return self._w(SymReal.__sub__(self, o))
+  def __rsub__(self, o): return self._w(SymReal.__rsub__(self, o))
+  def __mul__(self, o):
+    r = SymReal.__mul__(self, o)
+    return r if r is NotImplemented else self._w(r)
+  __rmul__ = __mul__
+  def __truediv__(self, o):
+    r = SymReal.__truediv__(self, o)
+    return r if r is NotImplemented else self._w(r)
+  def __neg__(self): return self._w(SymReal.__neg__(self))
+  def __abs__(self): return BranchReal(z3.If(self.t >= 0, self.t, -self.t))
+  def __lt__(self, o): return SymBool(self.t < self._lift(o))
+  def __le__(self, o): return SymBool(self.t <= self._lift(o))
+  def __gt__(self, o): return SymBool(self.t > self._lift(o))
+  def __ge__(self, o): return SymBool(self.t >= self._lift(o))
+  def __eq__(self, o): return SymBool(self.t == self._lift(o))
+  def __ne__(self, o): return SymBool(self.t != self._lift(o))
+  __hash__ = None
